@@ -37,7 +37,7 @@ class Compiled(object):
         self.errors = {}     # (module, stage) -> exception
 
 
-def run_set(mset, backends=('json',), genTexts=False, textFilter=None, seps=None, stop_on_error=False):
+def run_set(mset, backends=('json',), genTexts=False, textFilter=None, seps=None, stop_on_error=False, dialect=None):
     """parse -> symtable -> codegen for every module of the set (dependency order = list order)."""
     from pysmi.codegen.symtable import SymtableCodeGen
     from pysmi.codegen.jsondoc import JsonCodeGen
@@ -52,7 +52,7 @@ def run_set(mset, backends=('json',), genTexts=False, textFilter=None, seps=None
         text, _ = mibgen.join_tokens(toks, (seps or {}).get(name) or mibgen.canonical_layout(toks))
         out.texts[name] = text
         try:
-            trees = parser(dialect_of(m)).parse(text)
+            trees = parser(dialect or dialect_of(m)).parse(text)
             out.trees[name] = trees[0]
         except error.PySmiError as e:
             out.errors[(name, 'parse')] = e
